@@ -63,7 +63,7 @@ theorem eigAccept_sound (tol : Rat) (A : Mat) (lr li : List Rat) (Vr Vi : Mat) (
 
 /-- … and what one accepted pair says -/
 theorem eigPairAccept_sound (tol : Rat) (A : Mat) (lr li : Rat) (vr vi : List Rat) (h : eigPairAccept tol A lr li vr vi = true) :
-    (1 : Rat) / 4 ≤ dot vr vr + dot vi vi ∧
+    (1 : Rat) / 1000000 ≤ dot vr vr + dot vi vi ∧
     ∀ i < A.length,
       absR (dot (A.getD i []) vr - (lr * vr.getD i 0 - li * vi.getD i 0))
         ≤ tol * (maxAbs (A.map maxAbs) * absSum (List.zipWith (fun a b => absR a + absR b) vr vi)
